@@ -127,8 +127,17 @@ def run_case(args):
                      divzero=case.get('divzero', 'fork'), int_range=tuple(case.get('int_range', (-16, 16))))
         want_models = cfg['validate_per_case']
 
+        for name in ('rdp', 'evaluation', 'postprocessing', 'knee_ranking', 'clustering', 'convex_hull', 'curvature', 'dfdt', 'menger', 'lmethod', 'kneedle', 'zmethod', 'multi_knee', 'linear_fit', 'metrics'):
+            try:
+                getattr(L, name)
+            except Exception:
+                pass
+        if not hasattr(L, '_state'):
+            L.snapshot_state()
+
         def fn(cx):
             nd.reset_write_log()
+            L.reset_state()
             h = hapi.HSym(cx, L, case)
             sig = hm.run(h, case)
             cx.last_sig = sig
@@ -148,6 +157,8 @@ def run_case(args):
                                                   alt_inputs=ob['model'] if ob.get('nice') else None, trace=rec['trace']))
                 elif ob['status'] == 'unknown':
                     res['unknown'].append(dict(label=ob['label'], trace=rec['trace'][:40]))
+                    if ob.get('probe'):
+                        res['candidates'].append(dict(kind='obligation', label=ob['label'], inputs=ob['probe'], alt_inputs=None, trace=rec['trace'], from_unknown=True))
             if oc == 'notenc':
                 res['notenc'].append(rec['exc'])
             elif oc == 'solver-timeout':
@@ -210,7 +221,7 @@ def run_case(args):
             if rep is not None:
                 # exact ties rarely survive rounding: let the harness move threshold-like inputs onto the float values the real code computes
                 try:
-                    tries += list(rep(real(), case, cand['inputs']))[:12]
+                    tries += list(rep(real(), case, cand['inputs']))[:40]
                 except Exception:
                     pass
             for inp in tries:
@@ -375,7 +386,7 @@ def main(argv=None):
             if cand.get('duplicate'):
                 duplicates += 1
                 continue
-            if not cand.get('confirmed') and r['case'].get('probe'):
+            if not cand.get('confirmed') and (r['case'].get('probe') or cand.get('from_unknown')):
                 probes_ok += 1          # a solver-produced float64 probe input that the real package handles correctly
                 continue
             if not cand.get('confirmed'):
